@@ -20,7 +20,7 @@ CHECKS = {
         "laws C02_mul_comm/assoc/one_neutral/inverse/div_is_mul_inv/pow_add/pow_mul/root_pow plus dimension and same-base "
         "prefix laws, for all units. Correspondence: identity classes (id()) and normal forms of the implementation vs "
         "model on law-shaped expression groups evaluated in shuffled order; mixed-base prefixes numerically at 1e-9.",
-   note=TB + "Float exponents of mixed-base prefixes are outside the exact model (property relaxes them to 1e-9). Axioms: none.",
+   note=TB + "Float exponents of mixed-base prefixes are outside the exact model (property relaxes them to 1e-9); their real-number meaning is proved exactly over R (C02_mixed_base_mul/div/pow). Axioms: none for the exact theorems; the three mixed-base theorems use the standard library reals (ClassicalDedekindReals.sig_not_dec, sig_forall_dec, functional_extensionality_dep, Classical_Prop.classic).",
    tech="Rocq proof: free-abelian-group normal forms over gmap + intern-table invariant; vm_compute correspondence", ref="DESIGN.md §4 C02"),
  "C08": dict(
    text="Generic memoisation theorem, proved for every planner function f, every cacheability rule and every interleaving: "
@@ -192,7 +192,7 @@ CHECKS = {
         "C11_power_distributes (normal-form equality), C11_divide_by_prefixed, C11_unprefixed. Correspondence: prefix-heavy operator "
         "cases vs the dispatch model; the property's relations evaluated on the implementation over the exhaustive prefix x exponent grid; "
         "mixed SI/IEC at 1e-9.",
-   note=TB + "Mixed-base prefixes carry float exponents: numerical check only, as the property allows. Axioms: none.",
+   note=TB + "Mixed-base prefixes carry float exponents: numerical check at 1e-9 as the property allows, plus exact theorems over R (C11_mixed_base_mul/div/pow). Axioms: none for the exact theorems; the mixed-base theorems use the standard library reals (ClassicalDedekindReals.sig_not_dec, sig_forall_dec, functional_extensionality_dep, Classical_Prop.classic).",
    tech="Rocq proof: Qpower algebra of prefix values + vm_compute correspondence", ref="DESIGN.md §4 C11"),
  "C12": dict(
    text="Theorems C12_eq_reflexive, C12_eq_symmetric, C12_trichotomy, C12_le_ge_mirror (total_ordering's derivations modelled literally), "
